@@ -105,5 +105,75 @@ func init() {
 				}
 			}
 		}
+		vTextResultObject(r, out, 40+n)
+	}
+}
+
+// The result object a text connection hands to its waiting handler (TextServerProtocol.ProcessLockResultCommand): on one
+// connection the object is REUSED from reply to reply (freeCommandResult), so every field must be written anew — it must equal,
+// field by field, what the binary protocol answers for the same command (protocol.NewLockResultCommand of the same arguments).
+//   C14:text-result-field:<field>
+func vTextResultObject(r *rand.Rand, out *vOut, n int) {
+	reported := map[string]int{}
+	for it := 0; it < n; it++ {
+		sp := &TextServerProtocol{stream: &Stream{conn: &vTextConn{}}, lockWaiter: make(chan *protocol.LockResultCommand, 1)}
+		var hist []string
+		for k := 0; k < 2+r.Intn(5); k++ {
+			cmd := &protocol.LockCommand{}
+			cmd.Magic, cmd.Version = protocol.MAGIC, protocol.VERSION
+			cmd.CommandType = uint8(protocol.COMMAND_LOCK)
+			if r.Intn(2) == 0 {
+				cmd.CommandType = uint8(protocol.COMMAND_UNLOCK)
+			}
+			copy(cmd.RequestId[:], vRandBytes(r, 16))
+			copy(cmd.LockId[:], vRandBytes(r, 16))
+			copy(cmd.LockKey[:], vRandBytes(r, 16))
+			cmd.DbId = uint8(r.Intn(256))
+			cmd.Flag = uint8(r.Intn(256))
+			cmd.Count, cmd.Rcount = uint16(r.Intn(65536)), uint8(r.Intn(256))
+			if r.Intn(3) == 0 {
+				cmd.Count, cmd.Rcount = uint16(r.Intn(3)), uint8(r.Intn(3))
+			}
+			result, lcount, lrcount := uint8(r.Intn(13)), uint16(r.Intn(65536)), uint8(r.Intn(256))
+			var data []byte
+			if r.Intn(3) == 0 {
+				data = protocol.NewLockCommandDataSetData(vRandBytes(r, r.Intn(12))).Data
+			}
+			hist = append(hist, fmt.Sprintf("type=%d result=%d lcount=%d count=%d lrcount=%d rcount=%d data=%s", cmd.CommandType, result, lcount, cmd.Count, lrcount, cmd.Rcount, vHex(data)))
+			want := protocol.NewLockResultCommand(cmd, result, 0, lcount, cmd.Count, lrcount, cmd.Rcount, data)
+			if err := sp.ProcessLockResultCommand(cmd, result, lcount, lrcount, data); err != nil {
+				break
+			}
+			got := <-sp.lockWaiter
+			bad := []string{}
+			add := func(ok bool, f string) {
+				if !ok {
+					bad = append(bad, f)
+				}
+			}
+			add(got.CommandType == want.CommandType, "CommandType")
+			add(got.RequestId == want.RequestId, "RequestId")
+			add(got.Result == want.Result, "Result")
+			add(got.Flag == want.Flag, "Flag")
+			add(got.DbId == want.DbId, "DbId")
+			add(got.LockId == want.LockId, "LockId")
+			add(got.LockKey == want.LockKey, "LockKey")
+			add(got.Lcount == want.Lcount, "Lcount")
+			add(got.Count == want.Count, "Count")
+			add(got.Lrcount == want.Lrcount, "Lrcount")
+			add(got.Rcount == want.Rcount, "Rcount")
+			add((got.Data == nil) == (want.Data == nil) && (got.Data == nil || vHex(got.Data.Data) == vHex(want.Data.Data)), "Data")
+			for _, f := range bad {
+				sig := "C14:text-result-field:" + f
+				if reported[sig] < 3 {
+					reported[sig]++
+					out.monitor(sig, fmt.Sprintf("reply %d of one text connection: the result object's %s differs from what the binary protocol answers for the same command (the object is reused from the previous reply)", k+1, f),
+						map[string]interface{}{"replies_on_this_connection": hist})
+				}
+			}
+			out.stat("text-result-object")
+			// the waiting handler gives the object back for the next reply (commandHandlerLock / commandHandlerUnlock)
+			sp.freeCommandResult, got.Data = got, nil
+		}
 	}
 }
